@@ -108,7 +108,7 @@ def snapshot(root: Path | str, content: bool = False) -> dict[str, Any]:
         return snap
     for p in sorted(root.rglob("*")):
         rel = str(p.relative_to(root))
-        if "__pycache__" in p.parts:
+        if "__pycache__" in p.parts or ".ruff_cache" in p.parts:
             continue
         if p.is_dir():
             snap[rel + "/"] = "dir"
